@@ -178,11 +178,19 @@ def run_mux_case(case, judged):
                    "w_data": biased_bits(rng, dw)}
 
     gen = raw() if mode == "raw" else conforming()
+    from vmon.simkit import reset_plan, drive_reset
+    resets = reset_plan(layout["cycles"])
 
     async def bench(ctx):
+        nonlocal gen
         for c in range(layout["cycles"]):
             mon.cycle = c
             inp = next(gen)
+            drive_reset(ctx, c in resets)
+            if c in resets:
+                # warm reset: an idle cycle on the bus, whatever transaction was in progress is abandoned
+                inp = {"addr": rng.randrange(1 << aw), "r_stb": 0, "w_stb": 0, "w_data": biased_bits(rng, dw)}
+                gen = raw() if mode == "raw" else conforming()
             ctx.set(bus.addr, inp["addr"])
             ctx.set(bus.r_stb, inp["r_stb"])
             ctx.set(bus.w_stb, inp["w_stb"])
@@ -262,6 +270,9 @@ def run_mux_case(case, judged):
             if inp["r_stb"] and inp["w_stb"]:
                 mon.count("simultaneous_read_write_cycles")
             model.advance(inp, vals)
+            if c in resets:
+                model.reset()
+                mon.count("warm_resets")
             await ctx.tick()
 
     n_res = list(neighbour.bus.memory_map.resources()) if neighbour is not None else []
